@@ -8,6 +8,7 @@ import (
 	"github.com/robinbraemer/event"
 	. "go.minekube.com/common/minecraft/color"
 	. "go.minekube.com/common/minecraft/component"
+	"go.minekube.com/gate/pkg/edition/java/netmc"
 	"go.minekube.com/gate/pkg/edition/java/proto/packet"
 	util2 "go.minekube.com/gate/pkg/edition/java/proto/util"
 )
@@ -125,7 +126,10 @@ func (c *connectionRequest) connect(ctx context.Context) (*connectionResult, err
 			}
 			c.player.handleDisconnectWithReason(result.attemptedConn, reason, false)
 		}
-		c.player.resetInFlightConnection()
+		// The in-flight slot is not touched here: internalConnect releases the slot of
+		// the attempt it started itself, and a request that was only reported
+		// (already connected / in progress / canceled) never owned the slot, which
+		// may belong to another request that is still connecting.
 	}
 	return result, err
 }
@@ -218,11 +222,7 @@ func (p *connectedPlayer) handleConnectionErr2(
 		}
 	} else {
 		// If we were kicked by going to another server, the connection should not be in flight
-		p.mu.Lock()
-		if p.connInFlight != nil && RegisteredServerEqual(p.connInFlight.Server(), rs) {
-			p.resetInFlightConnection0()
-		}
-		p.mu.Unlock()
+		p.resetDeadInFlightConnection(rs)
 		result = &NotifyKickResult{Message: friendlyReason}
 	}
 	e := newKickedFromServerEvent(p, rs, kickReason, !kickedFromCurrent, result)
@@ -232,11 +232,13 @@ func (p *connectedPlayer) handleConnectionErr2(
 func (p *connectedPlayer) handleKickEvent(e *KickedFromServerEvent, friendlyReason Component, kickedFromCurrent bool) {
 	p.proxy.Event().Fire(e)
 
-	// There can't be any connection in flight now.
-	p.setInFlightConnection(nil)
+	// The connection we were kicked from can't be in flight anymore. Whatever else is in
+	// flight belongs to another request that is still connecting and is not ours to
+	// reset: with the slot emptied a further request would be admitted meanwhile.
+	p.resetDeadInFlightConnection(e.Server())
 
-	// Make sure we clear the current connected server as the connection is invalid.
 	p.mu.Lock()
+	// Make sure we clear the current connected server as the connection is invalid.
 	previousConnection := p.connectedServer_
 	if kickedFromCurrent {
 		p.connectedServer_ = nil
@@ -287,7 +289,9 @@ func (p *connectedPlayer) handleKickEvent(e *KickedFromServerEvent, friendlyReas
 			_ = p.SendMessage(requestedMessage)
 		}
 	case *NotifyKickResult:
-		if e.KickedDuringServerConnect() && previousConnection != nil {
+		// The player stays where it is: on its server, or (1.20.2+ gives up the previous
+		// server before the next one is joined) with the request that is connecting it.
+		if e.KickedDuringServerConnect() && (previousConnection != nil || p.connectionInFlight() != nil) {
 			_ = p.SendMessage(result.Message)
 		} else {
 			p.Disconnect(result.Message)
@@ -336,13 +340,27 @@ func (p *connectedPlayer) handleDisconnectWithReason(server RegisteredServer, re
 	}, safe)
 }
 
-func (p *connectedPlayer) resetInFlightConnection() {
-	p.setInFlightConnection(nil)
-}
-
-// without locking
-func (p *connectedPlayer) resetInFlightConnection0() {
-	p.connInFlight = nil
+// resetDeadInFlightConnection empties the in-flight slot if it holds a connection to the
+// server the player was kicked from that has been closed. A connection to that server which
+// is still being established is a new attempt of another request and stays in flight.
+func (p *connectedPlayer) resetDeadInFlightConnection(kickedFrom RegisteredServer) {
+	inFlight := p.connectionInFlight()
+	if inFlight == nil || !RegisteredServerEqual(inFlight.Server(), kickedFrom) {
+		return
+	}
+	dead := inFlight.gracefulDisconnect.Load()
+	if !dead {
+		mc := inFlight.conn()
+		dead = mc != nil && netmc.Closed(mc)
+	}
+	if !dead {
+		return
+	}
+	p.mu.Lock()
+	if p.connInFlight == inFlight {
+		p.connInFlight = nil
+	}
+	p.mu.Unlock()
 }
 
 func (p *connectedPlayer) setInFlightConnection(s *serverConnection) {
@@ -359,6 +377,25 @@ func (c *connectionRequest) checkServer(server RegisteredServer) (s ConnectionSt
 	p := c.player
 	p.mu.RLock()
 	defer p.mu.RUnlock()
+	return c.checkServer0(server)
+}
+
+// admit checks the server like checkServer and, if the request may proceed, makes conn the
+// in-flight connection in the same critical section, so that of several concurrent
+// requests only one is admitted.
+func (c *connectionRequest) admit(server RegisteredServer, conn *serverConnection) (s ConnectionStatus, ok bool) {
+	p := c.player
+	p.mu.Lock()
+	defer p.mu.Unlock()
+	if s, ok = c.checkServer0(server); ok {
+		p.connInFlight = conn
+	}
+	return s, ok
+}
+
+// without locking
+func (c *connectionRequest) checkServer0(server RegisteredServer) (s ConnectionStatus, ok bool) {
+	p := c.player
 	if p.connInFlight != nil || (p.connectedServer_ != nil &&
 		!p.connectedServer_.completedJoin.Load()) {
 		return InProgressConnectionStatus, false
@@ -389,18 +426,19 @@ func (c *connectionRequest) internalConnect(ctx context.Context) (result *connec
 	if newDest == nil {
 		return plainConnectionResult(CanceledConnectionStatus, newDest), nil
 	}
-	status, ok = c.checkServer(newDest)
-	if !ok {
-		return plainConnectionResult(status, newDest), nil
-	}
-
 	server, ok := newDest.(*registeredServer)
 	if !ok { // Must be of this type
+		if status, ok = c.checkServer(newDest); !ok {
+			return plainConnectionResult(status, newDest), nil
+		}
 		return plainConnectionResult(CanceledConnectionStatus, newDest), nil
 	}
 
+	// Check again (event subscribers took their time) and occupy the in-flight slot atomically.
 	conn := newServerConnection(server, c.previousServer, c.player)
-	c.player.setInFlightConnection(conn)
+	if status, ok = c.admit(newDest, conn); !ok {
+		return plainConnectionResult(status, newDest), nil
+	}
 	defer c.resetIfInFlightIs(conn)
 	return conn.connect(ctx)
 }
